@@ -1060,6 +1060,12 @@ inductive TItem where
   /-- an exception of class `cls` escaped from a callback into the reactor (which logs it and goes on).
       No step of the model produces this item. -/
   | exc (cls : String)
+  /-- harness annotation at the end of a step: broker client `b` (not closed) has neither a connection, nor a
+      connection attempt in progress, nor a retry scheduled -/
+  | bcIdle (b : Nat)
+  /-- harness annotation at the end of a trace: no connection is open or being attempted and no
+      connection-closed notification is outstanding -/
+  | netQuiet
   deriving Repr
 
 /-- the model's own trace for a list of events, in the same vocabulary -/
